@@ -16,6 +16,8 @@ ASSUMPTIONS = [
   "capacity set to 8 so that no operation overflows (overflow behaviour is C16)",
   "ActiveObject host is not started (no thread): its queue is the LockingDeque over a non-blocking queue.Queue subclass",
   "handler scripts act only on the first dispatch of a case, so complete_circuit terminates",
+  "h_long_circuit: capacity 3, 1-3 events pending, every dispatch posts one follow-up until 4-7 have been made: one complete_circuit call takes more steps "
+  "(5-10) than the queue can hold events, the queue itself never overflows",
   "ig: 0 the chart handles every event, 1/2 the odd/even numbered events are answered by no state (offered, then ignored by top)",
   "the truth value next_rtc returns is not asserted (the statement does not fix it); the number of events it dispatched is",
 ]
@@ -64,6 +66,77 @@ def case(host, deco, instr, np_, op1, op2, script, ig):
 
 Family(globals(), "h_queue", params=[("host", 0, 1), ("deco", 0, 1), ("instr", 0, 1), ("np", 0, 4), ("op1", 0, 3), ("op2", 0, 4), ("script", 0, 6), ("ig", 0, 2)],
        pre=pre, case=case, split=["host", "deco", "instr"], tiers=LIM)
+
+
+# ---- a circuit that takes more steps than the queue can hold events: every dispatch posts a follow-up until a budget is used up ------------
+CAP = 3
+
+
+def pre_long(v, lim):
+  return True
+
+
+def case_long(host, deco, n0, extra, lifo):
+  """capacity 3, n0 events pending, every dispatched event posts one more (fifo or lifo) until CAP + extra follow-ups have been made: the
+  queue never holds more than n0 events, complete_circuit needs n0 + CAP + extra steps"""
+  import collections
+  import miros.hsm as hsm
+  chart = queued.make_host(host, 0, CAP)
+  import miros.event as ev
+  budget = [CAP + extra]
+  log, model_log = [], []
+  fresh = [0]
+
+  def new_event():
+    fresh[0] += 1
+    return ev.Event(signal="T_L%d" % fresh[0])
+
+  def only(c, e):
+    sg = ev.signals
+    if e.signal in (sg.ENTRY_SIGNAL, sg.INIT_SIGNAL, sg.EXIT_SIGNAL):
+      return ev.return_status.HANDLED
+    if e.signal_name.startswith("T_"):
+      log.append(e.signal_name)
+      if budget[0] > 0:
+        budget[0] -= 1
+        (c.post_lifo if lifo else c.post_fifo)(new_event())
+      return ev.return_status.HANDLED
+    c.temp.fun = c.top
+    return ev.return_status.SUPER
+  only.__name__ = "only"
+  state = hsm.spy_on(only) if deco else only
+  hsm.HsmWithQueues.start_at(chart, state)
+  model = collections.deque()
+  for _ in range(n0):
+    e = new_event()
+    chart.post_fifo(e)
+    model.append(e.signal_name)
+  what = "host=%d deco=%d capacity=%d pending=%d, every dispatch posts one %s follow-up, %d follow-ups in all" % (host, deco, CAP, n0, "lifo" if lifo else "fifo", CAP + extra)
+  # reference: a deque driven the same way
+  b, k = CAP + extra, n0
+  while model:
+    model_log.append(model.popleft())
+    if b > 0:
+      b -= 1
+      k += 1
+      (model.appendleft if lifo else model.append)("T_L%d" % k)
+  try:
+    chart.complete_circuit()
+  except Exception as ex:
+    return FAIL("raised:" + type(ex).__name__, "%s: %r" % (what, ex))
+  if queued.NBQueue.blocked:
+    return FAIL("would-block", what)
+  q = chart.queue
+  left = [e.signal_name for e in (q.deque if hasattr(q, "deque") else q)]
+  if left:
+    return FAIL("complete_circuit-leaves-events", "%s: returned with %s still queued after %d dispatches (%d expected)" % (what, left, len(log), len(model_log)))
+  if log != model_log:
+    return FAIL("dispatch-order", "%s: dispatched %s expected %s" % (what, log, model_log))
+  return PASS(nontrivial=True)
+
+
+Family(globals(), "h_long_circuit", params=[("host", 0, 1), ("deco", 0, 1), ("n0", 1, 3), ("extra", 1, 4), ("lifo", 0, 1)],
+       pre=pre_long, case=case_long, split=[], tiers={"quick": {}, "thorough": {}})
 
 
 def set_tier(tier):
